@@ -2,9 +2,14 @@
    Directives used: those of ExtrOcamlBasic only (Extract Inductive for bool, option, unit, list, prod, sumbool, ...);
    no Extract Constant.  N/Z/positive/nat stay the extracted inductives. *)
 From Coq Require Import ExtrOcamlBasic.
-From PieV Require Import Model.Dag Model.Build Model.Dsl.
+From PieV Require Import Model.Dag Model.Build Model.Dsl Model.Tracker.
 Extraction "../model_driver/model.ml"
   Dag.empty Dag.add_node Dag.remove_node Dag.add_edge Dag.remove_edge Dag.remove_outgoing
   Dag.contains_node Dag.contains_edge Dag.contains_transitive_edge Dag.get_outgoing_edges Dag.get_incoming_edges
   Dag.descendants_unsorted Dag.descendants Dag.topo_cmp Dag.live Dag.get_info Dag.rank_of
-  Build.init_world Build.new_session Dsl.run_step Dsl.denote_table Build.is_tn Build.un.
+  Build.init_world Build.new_session Dsl.run_step Dsl.denote_table Build.is_tn Build.un
+  Tracker.et_run Tracker.is_build_start Tracker.is_build_end Tracker.is_execute Tracker.match_require_start Tracker.match_require_end
+  Tracker.match_read_start Tracker.match_read_end Tracker.match_write_start Tracker.match_write_end Tracker.is_execute_of
+  Tracker.match_execute_start Tracker.match_execute_end Tracker.first_require Tracker.first_read Tracker.first_write Tracker.first_execute
+  Tracker.range_of Tracker.first_read_end Tracker.first_write_end Tracker.first_execute_end Tracker.tindex
+  Tracker.any_execute Tracker.any_execute_of Tracker.one_execute_of Tracker.ktask Tracker.kres Tracker.composite_step.
